@@ -346,7 +346,7 @@ func c04ExploreFrames(e *fw.Env, r *fw.Result, bound int, restrict map[string][]
 		r.DistinctHash(fw.Hash64(stream))
 		r.Sample(2, map[string]any{"pass": pass, "frame": desc, "bytes": len(stream)})
 		done := e.Guard(r, 90*time.Second, func() (string, string, any) {
-			return "vp8 hang :: " + desc, "decoding did not finish within 90 s (hang) [frame: " + desc + "]", c04Replay{Hex: hex.EncodeToString(stream), Desc: desc}
+			return "vp8 hang :: " + desc, "decoding used more than 90 CPU-seconds without finishing (hang) [frame: " + desc + "]", c04Replay{Hex: hex.EncodeToString(stream), Desc: desc}
 		})
 		v := c04JudgeFrame(stream)
 		done()
@@ -424,7 +424,7 @@ func init() {
 				}
 				a := a
 				done := e.Guard(r, 90*time.Second, func() (string, string, any) {
-					return "alph hang :: " + a.key(), "decoding did not finish within 90 s (hang) [" + a.key() + "]", c04Replay{Alpha: a}
+					return "alph hang :: " + a.key(), "decoding used more than 90 CPU-seconds without finishing (hang) [" + a.key() + "]", c04Replay{Alpha: a}
 				})
 				v := a.run()
 				done()
